@@ -141,7 +141,7 @@ func (x *rtspSess) allAnswered() bool {
 
 // openRTSP dials, runs OPTIONS / DESCRIBE / SETUP… / PLAY with the plan's
 // channel pairs and returns the playing client. Machinery failures are fatal.
-func openRTSP(t evid.TB, s *srv.Server, pl *plan, path string) *rtspc.Client {
+func openRTSP(t evid.TB, s *srv.Server, pl *plan, path string, u *udpRecv) *rtspc.Client {
 	c, err := rtspc.Dial(s.Addr(), ioBound)
 	if err != nil {
 		t.Fatalf("machinery: dial %s: %v", pl.Transport, err)
@@ -168,9 +168,8 @@ func openRTSP(t evid.TB, s *srv.Server, pl *plan, path string) *rtspc.Client {
 		c.Close()
 		t.Fatalf("machinery: described SDP has %d media sections", len(ctl))
 	}
-	do("SETUP", rtspc.TrackURL(url, ctl[0].Control), map[string]string{"Transport": fmt.Sprintf("RTP/AVP/TCP;unicast;interleaved=%d-%d", pl.Video[0], pl.Video[1])})
-	if pl.Audio[0] >= 0 {
-		do("SETUP", rtspc.TrackURL(url, ctl[1].Control), map[string]string{"Transport": fmt.Sprintf("RTP/AVP/TCP;unicast;interleaved=%d-%d", pl.Audio[0], pl.Audio[1])})
+	for _, st := range pl.setups(url, ctl, u) {
+		do("SETUP", st.url, map[string]string{"Transport": st.transport})
 	}
 	do("PLAY", url, map[string]string{"Range": "npt=0.000-"})
 	if !srv.WaitFor(ioBound, func() bool { return srv.Consumers(path) == 1 }) {
@@ -190,6 +189,8 @@ type result struct {
 	whileBacked int // backlog stress: requests sent while >= 100 frames were queued
 
 	rounds, heldA, heldB int // cross-connection rounds
+
+	convHeld int64 // frames held at the point until the stream's converter had worked the packet off
 }
 
 // playing is a session in the playing state plus what the executor needs at the end.
@@ -211,24 +212,39 @@ func runRTSP(t evid.TB, pl *plan) *result {
 	path := casePath(pl.Transport)
 	st := srv.PublishStream(path, sdpAV)
 	defer srv.Unpublish(st)
-	e := &env{pl: pl, st: st, exp: newExpectation()}
+	e := &env{pl: pl, st: st, exp: newExpectation(), soft: pl.udpLast()}
 	e.tg = &target{in: sched.New(grace)}
+	if pl.Backlog == nil {
+		e.tg.conv = newConvWatch(st, &e.pushed)
+		defer e.tg.conv.forget()
+	}
+	if pl.UDP != "" {
+		u, err := newUDPRecv()
+		if err != nil {
+			t.Fatalf("machinery: udp sockets: %v", err)
+		}
+		defer u.close()
+		e.udp = u
+	}
 	var se playing
 	var tcp *rtspc.Client
 	dialogue := 0   // responses of the play dialogue
 	var raw *wsSess // ws-rtsp, or RTSP/TCP through the harness' own paced reader (backlog stress)
 	if pl.Transport == "ws" || pl.Backlog != nil {
-		raw = openWS(t, s, pl, path, e.exp, e.sentinelBytes)
+		raw = openWS(t, s, pl, path, e.exp, e.sentinelBytes, e.udp)
 		se = raw
 	} else {
-		tcp = openRTSP(t, s, pl, path)
+		tcp = openRTSP(t, s, pl, path, e.udp)
 		dialogue = 4
-		if pl.Audio[0] >= 0 {
+		if pl.Audio[0] >= 0 || pl.UDP != "" {
 			dialogue++
 		}
 		x := &rtspSess{c: tcp, url: s.RTSP(path), exp: e.exp}
 		x.col = newCollector(tcp, e.sentinelBytes)
 		se = x
+	}
+	if pl.udpLast() {
+		se = udpSentinel{se, e.udp, e.sentinelBytes}
 	}
 	defer se.close()
 	e.se = se
@@ -253,6 +269,13 @@ func runRTSP(t evid.TB, pl *plan) *result {
 	if res.v == nil {
 		res.v = judge(res.obs, e.exp, res.complete)
 	}
+	if res.v == nil && e.udp != nil {
+		res.v = judgeUDP(e.udp, e.udpExp)
+	}
+	if res.v == nil {
+		res.v = e.checkPublished()
+	}
+	res.convHeld = atomic.LoadInt64(&e.tg.convHeld)
 	if res.v == nil && !res.complete {
 		res.v = &verdict{"drain", fmt.Sprintf("sentinel seen=%v, responses %d of %d requests within %v (items: %s)", se.sentinelSeen(), len(res.obs.Resps), e.exp.requests(), ioBound, kindsSummary(res.obs.Kinds))}
 	}
@@ -355,6 +378,19 @@ func windowedRTSP(t *testing.T, transport string, bursty bool, quick, thorough i
 		if res.maxBurst > 128<<10 {
 			evid.Class(label + ": burst larger than the 128 KiB connection buffer")
 		}
+		if res.convHeld > 0 {
+			evid.ClassN(label+": frames held between prefix and body until the stream's converter had worked the packet off", res.convHeld)
+		}
+		if pl.UDP != "" {
+			evid.Class(fmt.Sprintf("%s: mixed transports, %s over UDP, UDP set up first=%v", label, pl.UDP, pl.UDPFirst))
+		}
+		padded := 0
+		for _, sp := range pl.Pkts {
+			if sp.Pad > 0 {
+				padded++
+			}
+		}
+		evid.ClassN(label+": published packets with RTP padding", int64(padded))
 		for _, r := range res.obs.Resps {
 			evid.Class(fmt.Sprintf("%s: response status %d", label, r.Status))
 		}
